@@ -30,5 +30,37 @@ claim("C11", "lockset analysis over go/ssa + control-dependence of global writes
       "'Returns exactly what it returns when run alone' is behaviour and not decided; races inside host builtins and process state are outside.",
       "DESIGN.md §3 C11")
 
-for pid in ["C01","C03","C06","C07","C08","C12","C13","C14","C15","C16","C17","C18","C19","C20"]:
+EVALSHAPE = "Form/Value typestate + scope-flow over go/ssa of the evaluator (regions found from the special-form dispatch)"
+
+claim("C01", EVALSHAPE + "; per-sentence shape rules of the language definition",
+      "Custom static analysis; each sentence of the definition is matched with a shape of EVAL/eval_ast/do/env: values never flow back into the evaluator (exactly-once); every evaluating call receives the scope the definition prescribes (current scope, one unconditional fresh child for let, child of the defining scope for closures - also in Apply, fresh child for catch) and bindings are written into non-fresh scopes only by def/defmacro; lookups ascend only on the not-found edge; sequences are evaluated by ascending loops with one evaluating call per element appended in order and the call form by a single left-to-right pass; the if region evaluates only the condition and compares it with exactly nil and false; def binds and returns the evaluated value; body-helper modes match each form's grammar and fn captures scope/params/(do ...body); the binder tests & first, binds rest from the same index and has both arity errors.",
+      "Decides shapes, not behaviour: values computed by builtins, exact error messages/positions and any semantic change that keeps all shapes are invisible. Anchors (EVAL, eval_ast, do, macroexpand, the dispatch) are located structurally/by name; if they move the check reports UNDECIDED.",
+      "DESIGN.md §3 C01, §2 C/D")
+
+claim("C03", EVALSHAPE + "; defer/dominance rules for finally; error-object provenance",
+      "Custom static analysis: handler/body values never re-enter the evaluator (once); the try body runs in a closure that first defers a total recover handler writing its own error result; the finally evaluation is registered by exactly one defer that dominates every exit of the try region after the body ran, is pure (no stores to EVAL's variables, results discarded) and does not read by reference any variable assigned after the defer (runs in the try form's scope); the handler runs in a fresh child binding exactly the catch symbol to ErrorValue()/message; ErrorValue/Unwrap/NewLispError/throw preserve the thrown object; fmt.Errorf uses %w for error operands; errors from nested evaluation are returned as the same value.",
+      "Does not decide ordering of effects inside bodies (C01) nor 'exactly once' under host panics with non-error values beyond the total recover handler.",
+      "DESIGN.md §3 C03")
+
+claim("C07", "loop inventory with context-poll must-pass check, blocking-operation inventory, context-derivation dataflow",
+      "Custom static analysis of what makes promptness possible: every loop reachable from the evaluator or a registered builtin is counted/range over data, polls a context derived from its own on every lap, or re-enters the evaluator on every lap; the evaluation loop itself polls at the top of every iteration; every blocking select reachable from evaluation also waits on the caller's context, no plain receives/sleeps/waits; every context handed to EVAL/eval_ast/do/macroexpand/Apply/Func.Fn/NewFuture is the function's own or a With* child of it (never Background), the binder injects the adapter's context; try body under at most one timeout child, handler and finally under the outer context; the timeout error is constructible for every form.",
+      "No time bound, scheduler latency or duration of one builtin call is decided ('promptly' is claimed only structurally). Host contexts assumed non-nil.",
+      "DESIGN.md §3 C07")
+
+claim("C08", EVALSHAPE + "; no-evaluating-call-in-tail-position rule",
+      "Custom static analysis: EVAL never returns the result of an evaluating call in a tail region (let, do, if, quasiquote, closure application, catch handler): each hands its tail form to the loop; allowed returns are eval_ast on a form known not to be a list, the try body's value, a builtin's result, unevaluated expansions and the stepping continuation under Stepper != nil; the body helper is used in return-last-as-form mode in tail regions; before the dispatch only macro expansion and non-list evaluation call the evaluator. Necessary and, for the evaluator's own frames, sufficient for constant stack depth of tail loops.",
+      "Measured stack depth, Go's stack growth in builtins and recursion through builtins (apply, map) are not decided; header macros cond/and/or are covered through the tail regions they expand to.",
+      "DESIGN.md §3 C08")
+
+claim("C12", EVALSHAPE + "; macro-flag provenance; generated-symbol table agreement",
+      "Custom static analysis: macro operands are the form's elements from index 1, classified unevaluated; expansion happens before the dispatch in the caller's scope (macro test and lookup use macroexpand's scope parameter, no scope change before dispatch); macroexpand loops on the updated form and returns it, macroexpand/quasiquoteexpand/quote return unevaluated; defmacro binds SetMacro() (value receiver) of the evaluated function, fn builds IsMacro:false, the macro test is true only via GetMacro, application ignores the flag; every symbol the quasiquote transform generates is a special form or registered builtin and its tags equal the reader's symbols for ~ and ~@; quasiquote dispatches on exactly List/Vector/HashMap/Symbol, vectors are rebuilt with vec, splice only for list elements, element order preserved.",
+      "Call-equals-expansion as a relation between runs and the algebra of the transform beyond its dispatch shape are not decided; missing-operand checks are C04's.",
+      "DESIGN.md §3 C12")
+
+claim("C18", "effect analysis of stepping-only code (control dependence on Stepper != nil / stepping flags) over go/ssa",
+      "Custom static analysis, a non-interference argument: code that exists only for stepping writes only the stepping flags, calls only the callback, printing and panic, and stores to no variable of the evaluation; no phi merges a value that differs depending on whether stepping code ran; stepping flags are read only as branch conditions; the stepping continuation sits at the loop bottom and passes exactly the loop-carried form, scope and context, returning results unchanged; the callback receives EVAL's incoming form and scope; the command switch covers every declared Command constant. Sufficient under the assumption that the callback itself does not touch interpreter state.",
+      "Output of the stepper itself and the interactive debugger package are outside; termination within the host stack is assumed as in the property.",
+      "DESIGN.md §3 C18")
+
+for pid in ["C06","C13","C14","C15","C16","C17","C19","C20"]:
     NOT_APPLICABLE[pid] = "check under construction in this revision (static rules designed in DESIGN.md §3, not yet registered)"
